@@ -265,6 +265,9 @@ def check_C(item, tier, r):
     from msdm.core.distributions import DictDistribution
     from msdm.core.exceptions import AlgorithmException
     _, spec_item, li, _ = item
+    if li % 2 == 1:
+        # the base MDP declares state 1 absorbing: an option whose termination set excludes it must run through it
+        spec_item = spec_item[:3] + ((1,),) + spec_item[4:]
     spec = Spec(spec_item)
     n = spec.n
     base = build.SpecMDP(spec, SLAB[li], ALAB[li])
@@ -337,10 +340,30 @@ def check_D(item, tier, r):
     sl, al = base.sl, base.al
     o1 = make_option(Option, FunctionalPolicy, DictDistribution, base, spec, 'mix', (2,), 6, name='go')
     o2 = make_option(Option, FunctionalPolicy, DictDistribution, base, spec, 'first', (1, 2), 3, name='short')
+    o3 = make_option(Option, FunctionalPolicy, DictDistribution, base, spec, 'last', (1, 2), 6, name='go')   # same name as o1
+    term = {id(o1): (2,), id(o2): (1, 2), id(o3): (1, 2)}
+    kind = {id(o1): 'mix', id(o2): 'first', id(o3): 'last'}
+
+    def sims_are_rollouts_of(o, sims, s0):
+        """every simulation must start at s0, follow real transitions with actions the option's policy allows,
+        and stop at the first state the option declares terminal"""
+        for sim in sims:
+            path = [base.s_of.get(x) for x in sim.state]
+            acts = [base.a_of.get(x) for x in sim.action[:-1]]
+            if not path or path[0] != s0:
+                return False
+            for k, (u, a, v) in enumerate(zip(path, acts, path[1:])):
+                allowed = spec.acts[u][:1] if kind[id(o)] == 'first' or len(spec.acts[u]) == 1 else \
+                    (spec.acts[u][-1:] if kind[id(o)] == 'last' else spec.acts[u])
+                if u in term[id(o)] or a not in allowed or spec.T[u][a].get(v, 0) == 0:
+                    return False
+            if path[-1] not in term[id(o)]:
+                return False
+        return True
     for nsim in (1, 2, 3):
         for seed in (0, 1):
             for incl in (False, True):
-                smdp = SemiMarkovDecisionProcess(mdp=base, options=[o1, o2], n_option_simulations=nsim, include_mdp_actions=incl, seed=seed)
+                smdp = SemiMarkovDecisionProcess(mdp=base, options=[o1, o2, o3], n_option_simulations=nsim, include_mdp_actions=incl, seed=seed)
                 for s in range(n):
                     ls = sl(s)
                     ctx = {'n_option_simulations': nsim, 'seed': seed, 'include_mdp_actions': incl, 's': s}
@@ -349,12 +372,12 @@ def check_D(item, tier, r):
                     # concatenates mdp.actions(s) + list and raises TypeError when the MDP returns a tuple; counted only
                     try:
                         acts = list(smdp.actions(ls))
-                        want = ([al(a) for a in spec.acts[s]] if incl else []) + [o1, o2]
+                        want = ([al(a) for a in spec.acts[s]] if incl else []) + [o1, o2, o3]
                         if acts != want:
                             r.count('outside:semimdp_actions_unexpected')
                     except TypeError:
                         r.count('outside:semimdp_actions_tuple_plus_list_typeerror')
-                    for o in (o1, o2):
+                    for o in (o1, o2, o3):
                         r.count('transitions')
                         try:
                             sims = smdp.run_simulations(ls, o)
@@ -379,6 +402,9 @@ def check_D(item, tier, r):
                             emp[key] = emp.get(key, 0) + 1 / nsim
                         if len(sims) != nsim:
                             r.violation('semimdp_number_of_simulations', dict(ctx, got=len(sims)), item)
+                        if not sims_are_rollouts_of(o, sims, s):
+                            r.violation('semimdp_simulations_are_not_rollouts_of_the_option', dict(ctx, option=o.name, policy=kind[id(o)],
+                                        paths=[[base.s_of.get(x) for x in sim.state] for sim in sims]), item)
                         got = {(k[0], k[1]): {} for k in dist}
                         tot = sum(dist.values())
                         if abs(tot - 1) > 1e-9:
@@ -408,6 +434,17 @@ def check_D(item, tier, r):
                             r.violation('semimdp_marginals_exception', dict(ctx, option=o.name, error=repr(e)[:200]), item)
                         if len(emp) >= 2:
                             r.nontriv((spec_item, nsim, seed, s, o.name))
+                    # the semi-MDP is a mutable dataclass: a different simulation count must take effect
+                    if s not in (2,) and nsim == 2:
+                        smdp.n_option_simulations = 3
+                        try:
+                            d3 = smdp.next_state_transit_time_reward_dist(ls, o1)
+                            if abs(sum(d3.values()) - 1) > 1e-9 or any(abs(p * 3 - round(p * 3)) > 1e-9 for p in d3.values()):
+                                r.violation('semimdp_simulation_count_change_ignored', dict(ctx, got={repr(k): v for k, v in d3.items()}), item)
+                        except AlgorithmException:
+                            pass
+                        finally:
+                            smdp.n_option_simulations = nsim
                     # primitive actions
                     for a in spec.acts[s]:
                         r.count('transitions')
